@@ -56,6 +56,9 @@ def run(ids):
     for m in cat:
         if ids and m["id"] not in ids:
             continue
+        if m.get("invalid"):
+            print(m["id"], "skipped:", m["invalid"][:100])
+            continue
         patch = os.path.join(OUT, m["id"] + ".diff")
         r = subprocess.run(["git", "-C", "/repo", "apply", patch], capture_output=True, text=True)
         if r.returncode != 0:
